@@ -1,5 +1,5 @@
 Require Extraction.
 Require Import ExtrOcamlBasic.
-From SCMO Require Import Lib.Val Model.C11.
-Definition run := run_C11.
+From SCMO Require Import Lib.Val Model.C11 Model.C11x.
+Definition run := run_C11x.
 Extraction "c11_model.ml" run.
